@@ -133,7 +133,8 @@ def _inspect_process_ir_param(param, sig):
     if name not in sig.parameters:
         return name, _param
     sig_param = sig.parameters[name]
-    if sig_param.annotation is not _empty:
+    if sig_param.annotation is not _empty and "typ" not in _param:
+        # documented information takes precedence, the signature fills the gaps
         _param["typ"] = lstrip_typings(
             sig_param.annotation
             if isinstance(sig_param.annotation, str)
